@@ -331,6 +331,20 @@ def features(case) -> dict[str, Any]:
         case["ranks"][m["src"]]["nodes"][m["data"]]["op"] in ("placeholder",
                                                              "data")
         for m in ms)
+    via_holder = False
+    for m in ms:
+        s = case["ranks"][m["src"]]
+        seen: set[int] = set()
+        stack = [m["data"]]
+        while stack:
+            i = stack.pop()
+            if i in seen:
+                continue
+            seen.add(i)
+            if s["nodes"][i]["op"] == "sendhold":
+                via_holder = True
+            stack.extend(data_children(s["nodes"][i]))
+    f["payload_via_holder_value"] = via_holder
     f["impl_stored"] = any(["ImplStored"] in (nd.get("tags") or [])
                            for s in case["ranks"] for nd in s["nodes"])
     f["impl_stored_recv"] = any(
@@ -614,7 +628,7 @@ class _Builder:
                 if b >= a:
                     b += 1
                 plan.append((a, b, self.draw(st.sampled_from(
-                    ["any", "any", "recv", "fresh", "forward"]))))
+                    ["any", "any", "recv", "fresh", "forward", "holderdep"]))))
         # a few more random messages on top of a pattern
         room = self.cfg.max_messages - len(plan)
         if pattern != "random" and room > 0 and self.boolean(1, 3):
@@ -624,7 +638,7 @@ class _Builder:
                 if b >= a:
                     b += 1
                 plan.append((a, b, self.draw(st.sampled_from(
-                    ["any", "recv", "forward"]))))
+                    ["any", "recv", "forward", "holderdep"]))))
         return plan[:self.cfg.max_messages]
 
     # -- tags
@@ -669,6 +683,21 @@ class _Builder:
                 cands = [g.last_recv]
         elif mode == "fresh":
             cands = [i for i in arrays if not deps[i]]
+        elif mode == "holderdep" and g.holders:
+            # computed from the *value* of a send holder
+            via: set[int] = set()
+            for i, nd in enumerate(g.nodes):
+                if nd["op"] != "sendhold" and any(
+                        c in via or g.nodes[c]["op"] == "sendhold"
+                        for c in data_children(nd)):
+                    via.add(i)
+            cands = [i for i in arrays if i in via]
+            if not cands:
+                h = g.holders[-1]
+                if g.vals[h].kind != "b":
+                    r = g.try_op("add", [["n", h], ["py", self.integers(1, 3)]])
+                    if r is not None:
+                        cands = [r]
         if not cands:
             cands = arrays
         pool = []
